@@ -53,8 +53,11 @@ package ws
 //@ func (w *WebsocketConnection).connClosedError() inline
 //@ func (w *WebsocketConnection).isConnClosed() inline
 
-//@ func (w *WebsocketConnection).close() entry [C13,C08]
+// C12-W3: writers are fenced by the closed flag, so the flag is set before anything is released
+//@ func (w *WebsocketConnection).close() entry [C13,C08,C12]
 //@   requires @WSOK(w)
+//@   atcall close [C12] W3-flag-before-release: w.connectionClosed
+//@   atcall Close [C12] W3-flag-before-socket: w.connectionClosed
 //@   ensures [C13] T1-closed: w.connectionClosed
 //@   ensures w.connectionClosedError == old(w.connectionClosedError)
 //@   ensures w.dataProcessing.$errReports == old(w.dataProcessing.$errReports)
